@@ -58,6 +58,8 @@ type Ctx struct {
 	viol  []Violation
 	incon []string
 	brok  []string
+	cmu    sync.Mutex
+	crumbs [256]*os.File
 	samp  []any
 	reqs  []requirement
 	evals int64
@@ -235,8 +237,20 @@ func (x *Ctx) Crumb(slot int, kind string, witness any) {
 	if x.OutDir == "" {
 		return
 	}
+	// in-flight cases of one parallel loop have consecutive indices, so slot%256 never collides among them
 	b, _ := json.Marshal(map[string]any{"prop": x.Prop, "kind": kind, "case": witness})
-	_ = os.WriteFile(filepath.Join(x.OutDir, fmt.Sprintf("crumb.%d.json", slot)), b, 0o644)
+	slot %= 256
+	x.cmu.Lock()
+	f := x.crumbs[slot]
+	if f == nil {
+		f, _ = os.OpenFile(filepath.Join(x.OutDir, fmt.Sprintf("crumb.%d.json", slot)), os.O_CREATE|os.O_RDWR|os.O_TRUNC, 0o644)
+		x.crumbs[slot] = f
+	}
+	x.cmu.Unlock()
+	if f != nil {
+		_, _ = f.WriteAt(b, 0)
+		_ = f.Truncate(int64(len(b)))
+	}
 }
 
 // Finish evaluates the coverage floors, writes the evidence file and returns
